@@ -18,7 +18,7 @@ pub fn mon() -> Mon {
         run,
         finish,
         replay,
-        rule: "Every catalogue call the encoder accepts (all 32 call forms: parameter sweeps, 7-bit address sweeps, 128x128 pairs on representative forms, every body length up to the SMBus limit, all six completion codes, random products) is encoded and the exact n output bytes are handed to decode_packet on four receiving contexts that differ in address, configuration and history (fresh; EID assigned; after 50 processed packets; the sender itself). Oracle (literals): control request -> Ok(type 0x00, payload = input[11..n-1]); Success response -> input[12..n-1]; vendor/SPDM -> input[9..n-1], with the payload pointer range checked to be that sub-slice and the bytes equal to what the caller passed; completion code c in 1..=5 -> Err(MCtpControl, UnsuccessfulCompletionCode(c)). Non-trivial = an encoded packet was decoded and judged; distinct = distinct packets.",
+        rule: "Every catalogue call the encoder accepts (all 32 call forms: parameter sweeps, 7-bit address sweeps, 128x128 pairs on representative forms, every body length up to the SMBus limit, all six completion codes, random products) is encoded and the exact n output bytes are handed to decode_packet on five receiving contexts that differ in address, configuration and history (fresh; EID assigned; after 50 processed packets; the sender itself; the addressee right after it encoded one or two requests of its own to the sender - an outstanding request for a usually different command - sometimes after a history with conversations). Oracle (literals): control request -> Ok(type 0x00, payload = input[11..n-1]); Success response -> input[12..n-1]; vendor/SPDM -> input[9..n-1], with the payload pointer range checked to be that sub-slice and the bytes equal to what the caller passed; completion code c in 1..=5 -> Err(MCtpControl, UnsuccessfulCompletionCode(c)). Non-trivial = an encoded packet was decoded and judged; distinct = distinct packets.",
         assumptions: &[
             "7-bit source/destination addresses (the property's quantifier)",
             "oversize bodies the encoder cannot frame are C04/C16's business and are skipped",
@@ -103,8 +103,31 @@ pub fn check(c: &Call, receivers: &[(&str, &MCTPSMBusContext)], rep: &mut Report
     let types = [0x7Eu8];
     let vend = [libmctp::vendor_packets::VendorIDFormat { format: 0, data: 0x1414, numeric_value: 4 }];
     let sender = MCTPSMBusContext::new(c.own, &types, &vend);
+    // the fifth: the peer the packet is addressed to, in the middle of its own business - it has
+    // (sometimes after a short history with conversations) just encoded a request of its own to the
+    // sender, for a command that usually differs from the one this packet is about, and has not
+    // seen the answer yet. A response or request arriving now is still the encoder's own output.
+    let peer_addr = pkt[0] >> 1;
+    let mut peer = MCTPSMBusContext::new(peer_addr, &types, &vend);
+    {
+        let h = hash_bytes(0xC01_5, &pkt);
+        let mut prng = crate::rng::Rng::new(h);
+        if h % 3 == 0 {
+            run_history(&mut peer, peer_addr, c.own, h | 1);
+        }
+        let mut scratch = [0u8; 300];
+        for _ in 0..1 + (h >> 8) % 2 {
+            let form = *prng.pick(&REQUEST_FORMS);
+            let mut q = Call::random(form, &mut prng, true, 24);
+            q.hist = 0;
+            q.own = peer_addr;
+            q.dest = if prng.chance(3, 4) { c.own } else { prng.byte() & 0x7F };
+            let _ = invoke_on(&peer, &q, &mut scratch, false);
+        }
+    }
     let mut all: Vec<(&str, &MCTPSMBusContext)> = receivers.to_vec();
     all.push(("sender", &sender));
+    all.push(("addressee-with-an-outstanding-request", &peer));
     for (name, ctx) in all {
         let got = decode(ctx, &pkt);
         rep.eval();
